@@ -327,15 +327,24 @@ namespace smt
         }
         case 2:
         {
-            const auto expr = l / l.vars.cbegin()->second;
+            const rational cf = l.vars.cbegin()->second; // the leading coefficient: l = cf * (v0 - v1) + known_term..
+            const auto expr = l / cf;
             auto it = expr.vars.cbegin();
             [[maybe_unused]] const auto [v0, c0] = *it++;
             const auto [v1, c1] = *it;
-            if (!is_integer(c1) || c1.numerator() != -1 || !is_integer(l.known_term))
+            if (!is_integer(c1) || c1.numerator() != -1 || !is_integer(cf) || !is_integer(l.known_term))
                 throw std::invalid_argument("not a valid integer difference logic expression..");
-            const auto dist = distance(v1, v0);
-            c_lb += dist.first + expr.known_term.numerator();
-            c_ub += dist.second + expr.known_term.numerator();
+            const auto dist = distance(v1, v0); // the bounds of v0 - v1..
+            if (cf.numerator() >= 0)
+            {
+                c_lb += dist.first * cf.numerator() + l.known_term.numerator();
+                c_ub += dist.second * cf.numerator() + l.known_term.numerator();
+            }
+            else
+            { // a negative coefficient swaps the roles of the two bounds..
+                c_lb += dist.second * cf.numerator() + l.known_term.numerator();
+                c_ub += dist.first * cf.numerator() + l.known_term.numerator();
+            }
             break;
         }
         default:
